@@ -3,6 +3,7 @@ import Enc.Spec.Thrift
 import Enc.Lemmas.ThriftZig
 import Enc.Lemmas.ThriftPrim
 import Enc.Lemmas.ThriftDecode
+import Enc.Lemmas.ThriftRoundTrip
 /-!
 # C04 — thrift: Unmarshal(Marshal(v)) == v for binary and compact protocols
 Property theorems only.
@@ -44,5 +45,25 @@ theorem decode_encode_partial (p : Proto) (strict : Bool) (ty : Ty) (v : Val) (h
     (fuel : Nat) (rest : Bytes) (cur : Val) (hf : Lemmas.ThriftSkip.fuelD ty v ≤ fuel) :
     decode p strict fuel ty (encode p ty v ++ rest) cur = .ok (v, rest) :=
   Lemmas.ThriftSkip.decode_encode p strict ty v h fuel rest cur hf
+
+/-! ## the full round trip (proofs in Enc/Lemmas/ThriftRoundTrip*.lean; 9 files)
+
+Universe `RTS`: bool, signed integers in range, doubles, strings, binaries, lists, sets, maps (keys pairwise distinct),
+pointers (nil allowed), named types, and structs at any nesting with ids 1…32767 pairwise distinct, required pointer
+fields non-nil, `enum` only on int32 kinds. `norm` is the value the decoder really produces: an elided field comes back
+as its zero value, a written nil collection as an empty one, an elided −0.0 as +0.0, a written nil pointer as a
+pointer to the zero value (the last two are the known findings). `Exact`: no such ambiguity, then `norm v = v`. -/
+
+open Lemmas.ThriftRoundTrip in
+/-- **MAIN.** Binary strict, binary non-strict and compact; strict and non-strict decoding; every type and value of the
+universe: Unmarshal(Marshal(v)) is v up to nil-versus-empty. -/
+theorem unmarshal_marshal (p : Proto) (strict : Bool) (ty : Ty) (v : Val) (h : RTS ty v = true) :
+    unmarshal p strict ty (marshal p ty v) = .ok (norm ty v) :=
+  Lemmas.ThriftRoundTrip.unmarshal_marshal p strict ty v h
+
+open Lemmas.ThriftRoundTrip in
+theorem unmarshal_marshal_exact (p : Proto) (strict : Bool) (ty : Ty) (v : Val) (h : RTS ty v = true)
+    (hx : Exact ty v) : unmarshal p strict ty (marshal p ty v) = .ok v :=
+  Lemmas.ThriftRoundTrip.unmarshal_marshal_exact_partial p strict ty v h hx
 
 end Enc.Props.C04
